@@ -155,10 +155,13 @@ def main(tier):
         vs = [v for v in vs if v[0] in keep]
     with ThreadPoolExecutor(8) as ex:
         prs = list(ex.map(lambda v: prepare(v[0], v[1]), vs))
-        evo_new = base(simple=True)
+        # the package with a registered previous version also has a protocol that did not change since that version
+        same = Protocol("Same", [("count", P("int32")), ("items", Stream(P("float32")))])
+        evo_new, evo_base = base(simple=True), base(simple=True)
         evo_new.defs[0].fields.append(("w", P("bool")))
-        evo = ex.submit(prepare, "evo", evo_new, base(simple=True)).result()
-        evo_old = ex.submit(prepare, "evoold", base(simple=True)).result()
+        evo_new.protocols.append(copy.deepcopy(same)); evo_base.protocols.append(copy.deepcopy(same))
+        evo = ex.submit(prepare, "evo", evo_new, evo_base).result()
+        evo_old = ex.submit(prepare, "evoold", evo_base).result()
     streams = {}
     for (label, pkg, cls), pr in zip(vs, prs):
         Pn = pkg.protocols[0].name
@@ -207,6 +210,29 @@ def main(tier):
     chk.count()
     if st != "OK":
         chk.fail("cpp/binary/registered-previous-version-rejected", "reader that lists the base model as version v0 rejects a base stream: %s" % msg[:300], {"message": msg})
+    # header damage seen by readers that know a previous version (changed protocol Proto, unchanged protocol Same): the schema string
+    # emptied, cut short, replaced by another protocol's, by the previous version's with one character changed
+    for Pv in ("Proto", "Same"):
+        vsteps = evo.steps[Pv]
+        vdata = refcodec.encode_protocol(vsteps, default_values(vsteps), evo.schemas[Pv], None)
+        sch = evo.schemas[Pv].encode()
+        body = vdata[len(refcodec.header(evo.schemas[Pv])):]
+        hdr = lambda text: vdata[:9] + refcodec.uvarint(len(text)) + text + body
+        other = evo.schemas["Same" if Pv == "Proto" else "Proto"].encode()
+        oldsch = evo_old.schemas[Pv].encode()
+        vmuts = [("schema-empty", hdr(b"")), ("schema-one-character", hdr(sch[:1])), ("schema-cut-in-half", hdr(sch[:len(sch) // 2])), ("schema-without-last-character", hdr(sch[:-1])),
+                 ("schema-of-other-protocol", hdr(other)), ("schema-null-bytes", hdr(b"\x00" * len(sch))), ("schema-json-null", hdr(b"null")), ("schema-empty-object", hdr(b"{}")),
+                 ("previous-schema-one-character-changed", hdr(oldsch[:-2] + b" " + oldsch[-1:])), ("schema-twice", hdr(sch + sch))]
+        for name, d in vmuts:
+            for lang in ("cpp", "py"):
+                st, out, msg = (evo.cpp if lang == "cpp" else evo.py).call(Pv, "b2n", d, 1)
+                chk.count()
+                chk.nontriv(("versioned", Pv, name, lang))
+                if st == "OK" or value_lines(out) > 0:
+                    chk.fail("%s/binary/corrupted-header-accepted/versioned-reader/%s" % (lang, name), "%s reader of %s (a package that registers a previous version) %s a stream whose header has %s" % (
+                        lang, Pv, "accepted" if st == "OK" else "delivered values from", name), {"mutation": name, "protocol": Pv, "lang": lang, "input_hex": d[:60].hex(), "status": st, "message": msg[:300]})
+                elif st in ("DIED", "HANG"):
+                    chk.fail("%s/binary/crash-on-corrupted-header/versioned-reader/%s" % (lang, name), "%s: %s" % (st, msg[-300:]), {"mutation": name, "protocol": Pv})
     # header corruptions of the base stream
     bl, bp, _ = vs[0]
     pr0 = prs[0]
@@ -228,6 +254,9 @@ def main(tier):
     for v in (0, 2, 2**31 - 1, -1):
         muts.append(("version-%d" % v, data[:5] + struct.pack("<i", v) + data[9:]))
     muts.append(("ndjson-as-binary", nd))
+    bsch = schema.encode()
+    for nm, text in (("schema-empty", b""), ("schema-cut-in-half", bsch[:len(bsch) // 2]), ("schema-without-last-character", bsch[:-1]), ("schema-json-null", b"null"), ("schema-twice", bsch + bsch)):
+        muts.append((nm, data[:9] + refcodec.uvarint(len(text)) + text + data[hdr_len:]))
     for name, d in muts:
         for lang in ("cpp", "py"):
             st, out, msg = (pr0.cpp if lang == "cpp" else pr0.py).call(Pn, "b2n", d, 1)
